@@ -192,6 +192,16 @@ func c08unhx(s string) string {
 	return string(b)
 }
 
+// c08Unquote: the TValue efp produces for a reference with a quoted sheet name
+func c08Unquote(sp string) string {
+	if strings.HasPrefix(sp, "'") {
+		if i := strings.LastIndex(sp, "'!"); i > 0 {
+			return strings.ReplaceAll(sp[1:i], "''", "'") + sp[i+1:]
+		}
+	}
+	return sp
+}
+
 func c08Refs(n *c08Node, m map[string]string) {
 	if n == nil {
 		return
@@ -223,6 +233,14 @@ func c08Tokens(formula string, spell map[string]string) (string, int) {
 			k, ok := spell[t.TValue]
 			if !ok {
 				k = "?" + t.TValue // unknown reference: the model's env has no such key
+			}
+			if strings.HasPrefix(k, "@RR:") { // a cell reference: the model resolves the spelling (parseReference)
+				out = append(out, "rr:"+hx(t.TValue)+":"+hx(k[4:]))
+				continue
+			}
+			if strings.HasPrefix(k, "@GR:") { // a range argument of a call, resolved by the model
+				out = append(out, "gr:"+hx(t.TValue)+":"+hx(k[4:]))
+				continue
 			}
 			if strings.HasPrefix(k, "@G:") { // a range argument of a call: its cells
 				out = append(out, "g:"+hx(k[3:]))
@@ -719,6 +737,7 @@ func c08NewState() *c08State {
 	f := xl.NewFile()
 	f.NewSheet("Sheet2")
 	f.NewSheet("Sheet3")
+	f.NewSheet("My Data") // a sheet whose name must be quoted in formulas
 	return &c08State{f: f, env: map[string]c08Val{}, names: map[string]bool{}, taint: map[string]string{}, impl: map[string]string{}}
 }
 
@@ -860,6 +879,14 @@ func (st *c08State) formula(r *Run, opname, key string, tree *c08Node, spaced bo
 	text := c08Render(tree, 1, spaced)
 	spell := map[string]string{}
 	c08Refs(tree, spell)
+	for sp, k := range spell {
+		// spellings that are not defined names are resolved by the model, not by the harness;
+		// efp hands the evaluator the spelling without the quotes of a quoted sheet name
+		if !strings.HasPrefix(k, "@") && !st.names[sp] {
+			delete(spell, sp)
+			spell[c08Unquote(sp)] = "@RR:" + sheet
+		}
+	}
 	toks, _ := c08Tokens(text, spell)
 	var tb strings.Builder
 	c08TreeEnc(tree, &tb)
@@ -997,7 +1024,7 @@ func (st *c08State) setCell(r *Run, key, kind, payload string) {
 	st.lines = append(st.lines, line)
 	// a workbook-level defined name for every cell
 	name := "n" + strings.ReplaceAll(sheet, "Sheet", "s") + cell
-	if !st.names[name] {
+	if !st.names[name] && !strings.Contains(sheet, " ") {
 		st.names[name] = true
 		must(st.f.SetDefinedName(&xl.DefinedName{Name: name, RefersTo: sheet + "!$" + cell[:1] + "$" + cell[1:]}))
 	}
@@ -1016,7 +1043,7 @@ func (st *c08State) setFormulaCell(r *Run, key string, tree *c08Node) {
 	st.env[key] = v
 	sheet, cell := c08SplitKey(key)
 	name := "n" + strings.ReplaceAll(sheet, "Sheet", "s") + cell
-	if !st.names[name] {
+	if !st.names[name] && !strings.Contains(sheet, " ") {
 		st.names[name] = true
 		must(st.f.SetDefinedName(&xl.DefinedName{Name: name, RefersTo: sheet + "!$" + cell[:1] + "$" + cell[1:]}))
 	}
@@ -1151,7 +1178,7 @@ func (g *c08Gen) spelling(key string) string {
 		case 0:
 			return abs
 		case 1:
-			return "Sheet1!" + c
+			return []string{"Sheet1!", "SHEET1!", "'Sheet1'!", "sheet1!"}[g.rng.Intn(4)] + c
 		case 2:
 			return name
 		case 3:
@@ -1161,11 +1188,27 @@ func (g *c08Gen) spelling(key string) string {
 		}
 		return c
 	}
-	switch g.rng.Intn(4) {
+	if strings.Contains(sh, " ") { // quoted sheet name, any case
+		q := "'" + sh + "'"
+		switch g.rng.Intn(4) {
+		case 0:
+			return "'" + strings.ToLower(sh) + "'!" + abs
+		case 1:
+			return "'" + strings.ToUpper(sh) + "'!" + strings.ToLower(c)
+		}
+		return q + "!" + c
+	}
+	switch g.rng.Intn(7) {
 	case 0:
 		return sh + "!" + abs
 	case 1:
 		return name
+	case 2:
+		return strings.ToUpper(sh) + "!" + strings.ToLower(c)
+	case 3:
+		return "'" + sh + "'!" + c
+	case 4:
+		return strings.ToLower(sh) + "!" + c[:1] + "$" + c[1:]
 	}
 	return sh + "!" + c
 }
@@ -1219,7 +1262,7 @@ func (g *c08Gen) workbook(r *Run, nformula int) *c08State {
 	st := c08NewState()
 	r.Op("reset", "ok")
 	g.keys = nil
-	cells := []string{"Sheet1!A1", "Sheet1!A2", "Sheet1!A3", "Sheet1!A4", "Sheet1!A5", "Sheet1!A6", "Sheet1!A7", "Sheet1!A8", "Sheet2!A1", "Sheet2!B2", "Sheet2!C3"}
+	cells := []string{"Sheet1!A1", "Sheet1!A2", "Sheet1!A3", "Sheet1!A4", "Sheet1!A5", "Sheet1!A6", "Sheet1!A7", "Sheet1!A8", "Sheet2!A1", "Sheet2!B2", "Sheet2!C3", "My Data!A1", "My Data!B2"}
 	for i, key := range cells {
 		kind := i % 5
 		if i >= 5 {
@@ -1293,6 +1336,8 @@ func c08Witnesses() []*c08Node {
 		c08U("neg", c08U("par", c08B("pow", c08U("par", c08U("neg", N("8"))), c08U("par", c08B("div", N("1"), N("3")))))), // -((-8)^(1/3))
 		c08B("add", N("1"), X("a")),                             // error code lost
 		c08B("div", c08U("par", c08B("pow", c08U("par", c08U("neg", N("8"))), N("0.5"))), c08U("par", c08B("div", N("1"), N("0")))), // ((-8)^0.5)/(1/0): #NUM! first
+		c08B("add", c08Ref("?Nope!A1", "Nope!A1"), N("1")),      // a sheet that does not exist: #NAME? on both sides
+		c08B("add", c08Ref("Sheet2!A1", "'SHEET2'!$a$1"), N("1")), // quoted, upper-case sheet, lower-case absolute cell
 		c08Ref("Sheet1!A5", "A5"),                               // =A5 (blank)
 		c08B("eq", c08Ref("Sheet1!A5", "A5"), L("FALSE")),       // blank=FALSE
 	}
